@@ -33,12 +33,12 @@ type stepSpec struct {
 }
 
 type pluginSpec struct {
-	name        string
-	exitAtStart bool
-	exitCode    int
+	name         string
+	exitAtStart  bool
+	exitCode     int
 	hs, gen, bye stepSpec
-	hsFeature   bool // the (good) handshake reply advertises SERVICE_GENERATOR
-	genFiles    []kv // files of a good generate reply
+	hsFeature    bool // the (good) handshake reply advertises SERVICE_GENERATOR
+	genFiles     []kv // files of a good generate reply
 }
 
 type scenario struct {
@@ -93,14 +93,14 @@ func orderText(n int) string {
 }
 
 type runResult struct {
-	exit     int
-	timedOut bool
-	stderr   string
-	views    []string
-	pids     []int
-	reaped   []bool // the plugin's log ended with `exit` at the moment the host exited
-	reqs     [][]string
-	files    []string
+	exit      int
+	timedOut  bool
+	stderr    string
+	views     []string
+	pids      []int
+	reaped    []bool // the plugin's log ended with `exit` at the moment the host exited
+	reqs      [][]string
+	files     []string
 	survivors []int
 }
 
@@ -685,7 +685,7 @@ func runC16(c *checker, r *rng.R) {
 	scs = nil
 
 	// 3. several plugins with independent random scripts
-	nMulti := 260
+	nMulti := 900
 	if thorough {
 		nMulti = 6000
 	}
